@@ -219,3 +219,11 @@ def replay(ctx, case):
         s = pt.serialize(a, plus)
         print(f'serialize(include_plus={plus}) -> {s!r}')
     print('expected: re-parse equal to the parsed annotation and re-serialisation identical')
+
+
+SUITE_WORKLOAD = True
+
+
+def install_generic(ctx):
+    """monitors for the repository's own suite: round trip on every serialize of a parsed, unedited annotation"""
+    install(ctx, State())
